@@ -30,9 +30,11 @@ def gen(rng, stratified=True, allow_cycles=True, max_consts=3, extremes=0.08, n_
     mode: 'mixed' (arity 0-2 predicates), 'prop' (dense propositional mutual recursion), 'graph' (probabilistic
     graph reachability, left/right recursive), None = random choice."""
     if mode is None:
-        mode = rng.choice(["mixed"] * 6 + ["prop"] * 2 + ["graph"] * 2)
+        mode = rng.choice(["mixed"] * 6 + ["prop"] * 2 + ["graph"] * 2 + ["rel"])
     if mode == "graph":
         return gen_graph(rng, stratified, n_evidence)
+    if mode == "rel":
+        return gen_rel(rng, n_evidence)
     consts = [1, 2, 3][: (rng.choice([2, 3]) if max_consts >= 3 else 2)]
     clauses = []
     facts = []
@@ -65,6 +67,14 @@ def gen(rng, stratified=True, allow_cycles=True, max_consts=3, extremes=0.08, n_
 
     def body_for(j, hv):
         bvars = list(hv)
+        if not hv and rng.random() < 0.07:
+            # body made of negative literals only (h :- \+x.): the head becomes an alias of a negated node
+            low = facts + [pq for k, pq in enumerate(preds) if level[k] < level[j]] if stratified else facts + preds
+            out = []
+            for _ in range(rng.choice([1, 1, 2])):
+                q, qa = rng.choice(low)
+                out.append(L(q, [rng.choice(consts) for _ in range(qa)], neg=True))
+            return out
         if mode == "mixed" and len(bvars) < 3 and rng.random() < 0.45:
             bvars.append(V[len(bvars)])
         if allow_cycles:
@@ -136,6 +146,16 @@ def gen(rng, stratified=True, allow_cycles=True, max_consts=3, extremes=0.08, n_
                         h[1][1] = [consts[0] if isvar(a) else a for a in h[1][1]]
             else:
                 clauses.append(["rule", None, head, body_for(j, hv)])
+    if mode == "mixed":
+        # predicates that mix ground heads with variable heads (clause indexing on several argument positions):
+        # a fact predicate that also has a general probabilistic clause, a derived predicate that also has a ground-headed clause
+        for name, ar in list(facts):
+            if ar >= 1 and rng.random() < 0.2 and len(consts) ** ar <= 4:
+                hv = V[:ar]
+                clauses.append(["rule", prob(), L(name, hv), [L("dom", [v]) for v in hv]])
+        for j, (p, ar) in enumerate(preds):
+            if ar >= 1 and rng.random() < 0.2:
+                clauses.append(["rule", rng.choice([None, prob()]), L(p, [rng.choice(consts) for _ in range(ar)]), body_for(j, [])])
     if rng.random() < 0.4:
         ps = rng.choice(AD_PAL)
         clauses.append(["ad", [[ps[0], L("g", [consts[0]])], [ps[1], L("g", [consts[-1]])]], []])
@@ -147,6 +167,12 @@ def gen(rng, stratified=True, allow_cycles=True, max_consts=3, extremes=0.08, n_
     nq = rng.randint(1, 3) if mode == "mixed" else rng.randint(2, 4)
     for p, ar in rng.sample(allp, min(nq, len(allp))):
         queries.append(L(p, [rng.choice(["_"] + consts) for _ in range(ar)]))
+    # several queries on one predicate (different instantiation patterns of the same goal)
+    for q in list(queries):
+        if q[1] and rng.random() < 0.3:
+            q2 = L(q[0], [rng.choice(["_"] + consts) for _ in q[1]])
+            if q2 not in queries:
+                queries.append(q2)
     evidence = []
     ne = n_evidence if n_evidence is not None else rng.choice([0, 0, 1, 1, 2])
     for _ in range(ne):
@@ -157,6 +183,102 @@ def gen(rng, stratified=True, allow_cycles=True, max_consts=3, extremes=0.08, n_
     # shuffle clause order a little (facts first is not required by the semantics)
     if rng.random() < 0.3:
         rng.shuffle(clauses)
+    prog = dict(consts=consts, clauses=clauses, queries=queries, evidence=evidence)
+    if rng.random() < 0.15:
+        prog = add_aliases(rng, prog)
+    return prog
+
+
+def add_aliases(rng, prog):
+    """Alias atoms: al_k :- x.  /  al_k :- \\+x.  as the ONLY clause of al_k, so that al_k shares the ground node of x (or is its
+    negation).  Aliases are queried, used in a new rule body, and may take over an evidence item (with the value flipped for a
+    negative alias), which is the same program for the reference."""
+    prog = dict(prog, clauses=list(prog["clauses"]), queries=list(prog["queries"]), evidence=[list(e) for e in prog["evidence"]])
+    consts = prog["consts"]
+    ground = []
+    for c in prog["clauses"]:
+        heads = [c[2]] if c[0] in ("fact", "rule") else [h for _, h in c[1]]
+        for h in heads:
+            if h[0] != "dom":
+                g = L(h[0], [a if not isvar(a) else rng.choice(consts) for a in h[1]])
+                if g not in ground:
+                    ground.append(g)
+    if not ground:
+        return prog
+    n = 0
+    for k in range(rng.randint(1, 3)):
+        t = rng.choice(ground)
+        neg = rng.random() < 0.5
+        al = L("al%d" % k)
+        prog["clauses"].append(["rule", None, al, [L(t[0], t[1], neg)]])
+        r = rng.random()
+        if r < 0.5:
+            prog["queries"].append(al)
+        if r > 0.3:
+            f = rng.choice(ground)
+            prog["clauses"].append(["rule", None, L("top%d" % k), [al, L(f[0], f[1], rng.random() < 0.2)]])
+            prog["queries"].append(L("top%d" % k))
+        for e in prog["evidence"]:
+            if e[0][:2] == t[:2] and rng.random() < 0.6:
+                e[0] = al
+                e[1] = (not e[1]) if neg else e[1]
+        if not prog["evidence"] and rng.random() < 0.3:
+            prog["evidence"].append([al, rng.random() < 0.5])
+        n += 1
+    return prog
+
+
+def gen_rel(rng, n_evidence=None):
+    """relations whose definition mixes ground facts, ground-headed rules and general (variable-headed) clauses, queried and
+    called with every binding pattern (both arguments bound, one bound, none bound), several queries per relation"""
+    consts = [1, 2] if rng.random() < 0.6 else [1, 2, 3]
+    clauses = []
+    pairs = [(a, b) for a in consts for b in consts]
+    rng.shuffle(pairs)
+    for a, b in pairs[: rng.randint(2, min(4, len(pairs)))]:
+        clauses.append(["fact", rng.choice(PAL), L("f0", [a, b])])
+    for c in consts:
+        if rng.random() < 0.7:
+            clauses.append(["fact", rng.choice(PAL), L("f1", [c])])
+    if not any(c[2][0] == "f1" for c in clauses):
+        clauses.append(["fact", "0.5", L("f1", [consts[0]])])
+    # general clauses for the fact relation itself
+    if rng.random() < 0.6:
+        clauses.append(["rule", rng.choice(PAL), L("f0", ["X", "Y"]), [L("dom", ["X"]), L("dom", ["Y"])]])
+    if rng.random() < 0.3:
+        clauses.append(["rule", rng.choice([None, rng.choice(PAL)]), L("f0", ["X", "X"]), [L("f1", ["X"])]])
+    # derived relation d0/2 with ground-headed and general clauses
+    bodies = [[L("f0", ["X", "Y"])], [L("f0", ["Y", "X"])], [L("f0", ["X", "Z"]), L("f0", ["Z", "Y"])], [L("f1", ["X"]), L("f1", ["Y"])],
+              [L("f0", ["X", "Y"]), L("f1", ["X"], True)]]
+    for b in rng.sample(bodies, rng.randint(1, 3)):
+        clauses.append(["rule", rng.choice([None, None, rng.choice(PAL)]), L("d0", ["X", "Y"]), b])
+    for _ in range(rng.randint(0, 2)):
+        a, b = rng.choice(pairs)
+        clauses.append(["rule", rng.choice([None, rng.choice(PAL)]), L("d0", [a, b]), [L("f1", [rng.choice(consts)], rng.random() < 0.2)]])
+    if rng.random() < 0.4:
+        clauses.append(["rule", None, L("d1", ["X"]), [L("d0", ["X", rng.choice(consts)])]])
+        clauses.append(["rule", None, L("d1", ["X"]), [L("d0", [rng.choice(consts), "X"]), L("f1", ["X"])]])
+    if rng.random() < 0.5:
+        rng.shuffle(clauses)
+    for c in consts:
+        clauses.append(["rule", None, L("dom", [c]), []])
+    queries = []
+    rels = ["f0", "d0"]
+    for _ in range(rng.randint(2, 4)):
+        r = rng.choice(rels)
+        pat = rng.randrange(4)
+        a, b = rng.choice(consts), rng.choice(consts)
+        q = L(r, [a, b] if pat == 0 else [a, "_"] if pat == 1 else ["_", b] if pat == 2 else [b, a])
+        if q not in queries:
+            queries.append(q)
+    if any(c[0] == "rule" and c[2][0] == "d1" for c in clauses) and rng.random() < 0.6:
+        queries.append(L("d1", [rng.choice(["_"] + consts)]))
+    evidence = []
+    ne = n_evidence if n_evidence is not None else rng.choice([0, 0, 1])
+    for _ in range(ne):
+        e = L(rng.choice(rels), [rng.choice(consts), rng.choice(consts)])
+        if not any(x[0][:2] == e[:2] for x in evidence):
+            evidence.append([e, rng.random() < 0.5])
     return dict(consts=consts, clauses=clauses, queries=queries, evidence=evidence)
 
 
